@@ -33,6 +33,7 @@ RenameOf(n) == CASE n = "none" -> None
                  [] n = "class" -> <<"c","l","a","s","s">>
                  [] n = "_x" -> <<"_","x">>
                  [] n = "parentId" -> <<"p","a","r","e","n","t","I","d">>
+                 [] n = "empty" -> <<>>                 \* serde(rename = ""): the JSON key is the empty string
                  [] n = "$ref" -> <<"$","r","e","f">>            \* JSON-Schema / MongoDB style keys: `$` means something in Kotlin strings, nothing in Go tags
 
 Init == c \in [kind : {"struct", "variant"}, ident : Idents, rename : Renames, rule : RuleSet,
